@@ -511,7 +511,7 @@ def concrete_playback(h, ws, tgt, logdir, timeout):
     # Kani inserts the unit test right after the harness function; for harnesses generated by a
     # macro_rules! template that is *inside* the macro body (the test would be defined once per
     # invocation and not compile): move every generated test to the end of the module.
-    pat = re.compile(r"(?:^///[^\n]*\n)*\s*#\[test\]\s*fn kani_concrete_playback_\w+\(\) \{.*?\n\}\n", re.S | re.M)
+    pat = re.compile(r"(?:^[ \t]*///[^\n]*\n)*(?:^[ \t]*\n)*^[ \t]*#\[test\][ \t]*\n[ \t]*fn kani_concrete_playback_\w+\(\) \{.*?\n[ \t]*\}\n", re.S | re.M)
     blocks = pat.findall(text)
     if blocks:
         text = pat.sub("", text)
@@ -541,7 +541,7 @@ def native_playback(h, ws, tests, logdir, release):
 def extract_tests(src_text, tests):
     blocks = []
     for t in tests:
-        m = re.search(r"(#\[test\]\s*(?:#\[[^\]]*\]\s*)*fn %s\(\) \{.*?\n\}\n)" % re.escape(t), src_text, re.S)
+        m = re.search(r"(#\[test\]\s*(?:#\[[^\]]*\]\s*)*fn %s\(\) \{.*?\n[ \t]*\}\n)" % re.escape(t), src_text, re.S)
         if m:
             blocks.append(m.group(1))
     return blocks
